@@ -679,7 +679,7 @@ var c02StdExprs = []string{
 	"A().hash", "A() == A()", "A().inspect", "Time.now", "1.hour", "2.seconds + 1.minute", "Time.now - 1.hour", "Time.now.to_string", "Kernel.sleep(0.nanoseconds)",
 	"print(\"\")", "println(\"\")", "\"#{ri} and #{rs}\"", "rs.to_string", "ri.inspect + rs.inspect", "Channel::[Int](1)", "Sync::Mutex()", "Sync::WaitGroup(0)",
 	"rl.iter.to_list", "rl.to_collection", "rl.to_immutable_collection", "rl.length.to_float", "rl.try_first", "rl.try_last", "rl.is_empty", "rl.append(4)",
-	"rl.push(5)", "rl << 6", "rl.pop", "rl.remove_at(0)", "rl.clear", "rl.capacity", "rl.grow(2)", "rl.copy", "rm.copy", "rm.is_empty", "rm.contains_value(1)",
+	"rl.push(5)", "rl << 6", "(rl << 6).pop", "(rl << 7).remove_at(0)", "rl.capacity", "rl.grow(2)", "rl.copy", "rm.copy", "rm.is_empty", "rm.contains_value(1)",
 }
 
 func (g *c02Gen) std(sel string) *c02Snip {
